@@ -167,7 +167,14 @@ def _c05(ctx):
     from .rules import tab as _tab
     t4, nt4 = _tab.rule_T4(ctx)
     t4.floor('constant relations', nt4, 10)
-    return _exc_rules(ctx, 'C05') + [t4, _w1(ctx, 'C05', 3), _x9(ctx, ('src/MGRS.cpp',), 1, 100), _t3(ctx, {'MGRS'}, 25), _x7(ctx, ('src/MGRS.cpp',), 15, 8)]
+    extra = []
+    if ctx.tier == 'thorough' and ctx.prog.raw.get('precision', 2) == 2:
+        from .rules import relidx
+        x7r, nsite, nproved = relidx.rule_X7r(ctx, ('src/MGRS.cpp',), values=(0, 5, 11))
+        x7r.floor('subscript sites in MGRS::Forward', nsite, 20)
+        x7r.floor('sites proved on every path', nproved, 12)
+        extra = [x7r]
+    return _exc_rules(ctx, 'C05') + extra + [t4, _w1(ctx, 'C05', 3), _x9(ctx, ('src/MGRS.cpp',), 1, 100), _t3(ctx, {'MGRS'}, 25), _x7(ctx, ('src/MGRS.cpp',), 15, 8)]
 
 
 def _c10(ctx):
